@@ -694,6 +694,32 @@ class DataFrame:
             return None
         return r
 
+    def nlargest(self, n, columns, keep="first"):
+        cols = columns if isinstance(columns, list) else [columns]
+        order = sort_positions([self._data[c] for c in cols], False, stable=True)
+        return self._take(order[:n])
+
+    def nsmallest(self, n, columns, keep="first"):
+        cols = columns if isinstance(columns, list) else [columns]
+        order = sort_positions([self._data[c] for c in cols], True, stable=True)
+        return self._take(order[:n])
+
+    def rank(self, **kw):
+        r = self.copy()
+        for c in list(r._data):
+            r._data[c] = r._col(c).rank(**kw)._vals
+            r._dt[c] = None
+        return r
+
+    def cumsum(self, **kw):
+        r = self.copy()
+        for c in list(r._data):
+            r._data[c] = r._col(c).cumsum()._vals
+        return r
+
+    def abs(self):
+        return self.map(lambda v: v if is_na(v) else abs(v))
+
     def duplicated(self, subset=None, keep="first"):
         cols = ([subset] if isinstance(subset, str) else list(subset)) if subset is not None else list(self._data)
         seen, out = [], []
